@@ -157,7 +157,7 @@ func propC10(c *Check) {
 }
 
 func propC11(c *Check) {
-	c.Explain = "Decides determinism and the 'earlier records only' gates of historical views: (1) purity: NodesListWithoutState, nodeSequenceWithoutState, ConsensusThreshold, consensusNodes, ConsensusKeys, PledgingNode, electSnapshotNode and storage readCustodianAccount reach no clock, randomness, environment, goroutine or channel operation; the single map iteration (nodeSequenceWithoutState) only appends to a slice that is sorted with a total-order comparator (Timestamp, then id string) before any use; (2) record inclusion is gated by the query timestamp: NodesListWithoutState returns a sequence only under seq.Timestamp < threshold, nodeSequenceWithoutState admits a record only past 'n.Timestamp >= threshold => break', readCustodianAccount parses an item only past 'key timestamp > ts => break' and storage readAllNodes skips ts > threshold; (3) custodian cache: the cache key struct holds the transaction hash and the genesis flag, and both the hit and the miss path return through cloneCustodianUpdate (no caller can alias cached state)."
+	c.Explain = "Decides determinism and the 'earlier records only' gates of historical views: (1) purity: NodesListWithoutState, nodeSequenceWithoutState, ConsensusThreshold, consensusNodes, ConsensusKeys, PledgingNode, electSnapshotNode and storage readCustodianAccount reach no clock, randomness, environment, goroutine or channel operation; the single map iteration (nodeSequenceWithoutState) only appends to a slice that is sorted with a total-order comparator (Timestamp, then id string) before any use; (2) record inclusion is gated by the query timestamp: NodesListWithoutState returns a sequence only under seq.Timestamp < threshold, nodeSequenceWithoutState admits a record only past 'n.Timestamp >= threshold => break', readCustodianAccount parses an item only past 'key timestamp > ts => break' and storage readAllNodes skips ts > threshold; (3) custodian cache: the cache key struct holds the transaction hash and the genesis flag, and both the hit and the miss path return through cloneCustodianUpdate (no caller can alias cached state). (4) ownership: every store to a field of a *kernel.CNode anywhere in the module targets a CNode allocated by the storing function (copy or literal; the sequence builder is the one tabled exception), so no view mutates the shared records of the state sequences; (5) custodian history is append-only in time: the guard fragment of writeCustodianNodes is interpreted over all orderings of prev.Timestamp vs snapTime and custodian (in)equality and reaches the record write only with prev == nil or prev.Timestamp < snapTime."
 	c.NotCov = "append-invariance over actual histories (that later writes never insert earlier-timestamped records is C27/C28's guard, not decided here)."
 	c.Floor(12)
 	w := c.W
